@@ -323,8 +323,8 @@ PROPS = {
             "6 orientations), never counted as proved: an unbounded proof needs the real-valued invariant 'the probe stays in the current "
             "sub-triangle at every level' over f64 code, which Verus cannot state (no float semantics)",
             "CBMC is bit-precise for f64 + - * / and comparisons; no transcendental function occurs on this path",
-            "NOT decided: pentagon centres lie in the quintant triangle and the pentagon CENTRE maps back to s (irrational basis; "
-            "PENTAGON constants use cos/sin/atan2)",
+            "pentagon centres lie in the quintant triangle and the pentagon CENTRE maps back to s: no contract decides it (irrational "
+            "basis; PENTAGON constants use cos/sin/atan2); BOUNDED sampled stand-in only (replay op pentagon_centre, depths 1..29)",
             "the digit-shift step is proved completely (full-domain harness k17_shift_then_unshift_is_identity)",
             "Verus unit hilbert (unbounded, all depths): the digit machinery of both directions keeps digits quaternary and flips +-1, "
             "never indexes out of bounds, terminates, and ij_to_s returns a position < 4^depth ('no position outside the range'); "
@@ -332,11 +332,15 @@ PROPS = {
         ],
         "bounded_ops": [
             {"op": "curve_roundtrip", "budget": 20000, "timeout": 900, "what": "deep curve levels (BOUNDED stand-in, beyond the depth Kani reaches): "
-             "for every depth 1..28 x 6 orientations, the digit-pattern families (all-0, all-3, alternating, one repeated digit, single "
+             "for every depth 1..29 x 6 orientations, the digit-pattern families (all-0, all-3, alternating, one repeated digit, single "
              "digit d*4^k and its neighbours) and random positions: position -> anchor -> nudged probe -> position is the identity on "
              "the real code"},
+            {"op": "pentagon_centre", "budget": 20000, "timeout": 900, "what": "BOUNDED stand-in (sampled; same position families, depths "
+             "1..29 x 6 orientations): the centre (get_center) of the pentagon get_pentagon_vertices(n, 0, s_to_anchor(s, n, o)) lies inside "
+             "the quintant triangle (get_quintant_vertices(0).contains_point > 0) and, scaled into the depth-n lattice, is located "
+             "back at s by ij_to_s(face_to_ij(..), n, o)"},
         ],
-        "search_ops": ["curve_roundtrip", "reference"],
+        "search_ops": ["curve_roundtrip", "pentagon_centre", "reference"],
         "level_text": "Kani/CBMC on the real f64 hilbert.rs: (complete) the digit-shift pass is undone by the reversed pattern for "
                       "every digit pair, flip state, invert_j and both patterns; (bounded) for every curve position of depth n <= 3 "
                       "(quick) / <= 5 (thorough) and each of the six orientations the lattice cell of position s is located back "
@@ -436,12 +440,14 @@ PROPS = {
             "frozen dump contracts/reference/geo_dump_v0.6.2.txt (produced ONCE by running the pinned reference release: all cells of "
             "resolutions 0 and 1, cells around the wrap meridians / antimeridian / face centres at resolutions 2..29, 3000 random cells of "
             "resolutions 0..29, centres within 89.5 degrees of latitude) this tree reports the same centre and the same corner points to "
-            "1e-9 degrees and maps the reference centre back to the same ID",
+            "1e-9 degrees and maps the reference centre back to the same ID; and for its 4880 point lookups (2880 points 100 m .. 5 km "
+            "off the 30 seams, alternating sides, resolutions 0 / 1 / 15 / 29; 2000 random points, half of them at resolutions 22..29) "
+            "lonlat_to_cell returns the reference ID when the file is replayed in order in one process",
         ],
         "bounded_ops": [
-            {"op": "reference_geo", "budget": 1, "what": "BOUNDED stand-in (frozen sample of 3311 cells from the reference release, "
-             "resolutions 0..29): cell_to_lonlat and the corners of cell_to_boundary agree with the reference release to 1e-9 degrees "
-             "and lonlat_to_cell(reference centre) returns the reference ID"},
+            {"op": "reference_geo", "budget": 1, "what": "BOUNDED stand-in (frozen sample from the reference release: 3311 cells of "
+             "resolutions 0..29 and 4880 point lookups): cell_to_lonlat and the corners of cell_to_boundary agree with the reference "
+             "release to 1e-9 degrees, lonlat_to_cell(reference centre) and every recorded point lookup return the reference ID"},
         ],
         "search_ops": ["reference", "roundtrip", "reference_geo"],
         "level_text": "Proof that the integer labelling stages equal the frozen reference release: Verus (bit layout of the real "
